@@ -117,8 +117,7 @@ Print Assumptions C16_input_partial.
    size and ANY number of rows, the Euler trajectory of the population circuit is the Euler trajectory of the explicit
    network (one scalar edge per non-zero matrix entry, parameter i on unit i, per-edge discrete delays, per-edge
    gamma-kernel cascades, one state per (target, source) pair of a dynamic coupling template), provided the decidable
-   guard holds: per-connection guards, none of the loud classes, no gamma-kernel delay on a connection with a dynamic
-   template (not modelled).  Proof: shape invariants of the unit states and of the edge states (pair matrices, cascade
+   guard holds: per-connection guards, none of the loud classes (both vacuous once every repair is in: C16_full).  Proof: shape invariants of the unit states and of the edge states (pair matrices, cascade
    stages) along the run + C16_input_partial and the per-pair state equations at every step. *)
 Theorem C16_run_partial : forall U N units dt rows,
   wf_net N = true -> wf_units N units = true -> traj_guard N = true ->
@@ -138,11 +137,23 @@ Example C16_run_nonvacuous_dyn :
 Proof. exact nonvacuous_dyn. Qed.
 Print Assumptions C16_run_nonvacuous_dyn.
 
-(* The full-strength statement (every well-formed population circuit runs like its explicit network) is FALSE of the
-   faithful model (the refutations of the classes F2 / F3 carry the hypothesis that the repair switch of Population.v is off); it stays visible here and is refuted by computed witnesses that also fail on the real code
-   (corpus/C16). *)
+(* The full-strength statement: EVERY well-formed population circuit runs like its explicit network.  It was false of the
+   faithful model while the classes F1-F3, F5-F7 were unrepaired (the `_before_fix` lemmas below keep the witnesses,
+   each under the hypothesis that its switch in Population.v is off); with every repair in (D54-D56, D60, D92, D93 —
+   `all_fixed` computes to true) and the weight tolerance modelled on both sides it is a THEOREM, for any unit dynamics:
+   no guard is left.  (F9 is a difference between Connectivity and the explicit circuit's delayed TEMPLATE edges, not
+   between Impl and this Spec, which delays the source of every edge: see known_findings.d/C16.json.) *)
 Definition C16_full_statement : Prop := forall N units dt rows, wf_net N = true -> wf_units N units = true ->
   pop_run unit_poly N units dt rows = Some (exp_run 0 unit_poly N units dt rows).
+
+Theorem C16_full_any_unit : forall U N units dt rows, all_fixed = true ->
+  wf_net N = true -> wf_units N units = true -> pop_run U N units dt rows = Some (exp_run 0 U N units dt rows).
+Proof. exact pop_run_full. Qed.
+Print Assumptions C16_full_any_unit.
+
+Theorem C16_full : C16_full_statement.
+Proof. intros N units dt rows Hwf Hu. apply pop_run_full; [vm_compute; reflexivity|exact Hwf|exact Hu]. Qed.
+Print Assumptions C16_full.
 
 Theorem C16_scalar_coupling_before_fix : fixed_F3 = false ->
   wf_net N_scalar_coupling = true /\ g_scalar_plain N_scalar_coupling = false /\
@@ -150,11 +161,13 @@ Theorem C16_scalar_coupling_before_fix : fixed_F3 = false ->
 Proof. exact scalar_coupling_before_fix. Qed.
 Print Assumptions C16_scalar_coupling_before_fix.
 
-Theorem C16_refuted_near_one :
-  wf_net N_near_one = true /\ g_not_near_one N_near_one = false /\
-  pop_run unit_poly N_near_one units22 (mkq 1 4) 2 <> Some (exp_run 0 unit_poly N_near_one units22 (mkq 1 4) 2).
-Proof. exact refuted_near_one. Qed.
-Print Assumptions C16_refuted_near_one.
+(* the weight tolerance of the code (a scalar weight within weight_tol = 1e-8 of 1 is not applied) is part of the model on
+   BOTH sides: the explicit scalar edges make the same elision, so this is no difference between the two circuits *)
+Theorem C16_near_one_elided_on_both_sides :
+  wf_net N_near_one = true /\ near_one (mkq 1073741825 1073741824) = true /\
+  pop_run unit_poly N_near_one units22 (mkq 1 4) 2 = Some (exp_run 0 unit_poly N_near_one units22 (mkq 1 4) 2).
+Proof. exact near_one_elided_on_both_sides. Qed.
+Print Assumptions C16_near_one_elided_on_both_sides.
 
 Theorem C16_post_name_before_fix : fixed_F2 = false ->
   wf_net N_post_name = true /\ g_post_name N_post_name = false /\
@@ -189,11 +202,6 @@ Theorem C16_delay_1x1_before_fix : fixed_F7 = false ->
 Proof. exact delay_1x1_before_fix. Qed.
 Print Assumptions C16_delay_1x1_before_fix.
 
-Theorem C16_full_refuted : ~ C16_full_statement.
-Proof.
-  intros H. destruct refuted_near_one as (Hwf & _ & Hne). apply Hne. apply H; [exact Hwf|vm_compute; reflexivity].
-Qed.
-Print Assumptions C16_full_refuted.
 
 (* non-vacuity: a guard-satisfying network (3 -> 2 non-square signed matrix, a scalar weight onto the same target
    variable, a coupled 3 x 2 matrix, per-unit parameters): well-formed, inside every guard, Impl = Spec on a
